@@ -127,3 +127,184 @@ package wallet
 //@   requires seed != nil
 //@   ensures [same] k1 == k2
 //@   ensures [frame] *seed == old(*seed)
+//
+// ---------------------------------------------------------------------------
+// C07: funding. Everything below runs under sw.mu (sequential reasoning; the
+// atomicity of the mutex is assumption A4). The clock is read once per call
+// (assumption: time.Now is treated as constant within one call; a reservation
+// that expires between two reads inside one call is only released earlier).
+//
+//@ extern time.Now pure
+//@ extern (time.Time).Before pure
+//@ extern (time.Time).After pure
+//@ extern (time.Time).Add pure
+//
+// Element copies keep id, output and maturity height:
+//@ extern (types.SiacoinElement).Share pure
+//@   ensures result.ID == sce.ID && result.SiacoinOutput == sce.SiacoinOutput && result.MaturityHeight == sce.MaturityHeight
+//@ extern (types.SiacoinElement).Copy
+//@   assigns nothing
+//@   ensures result.ID == sce.ID && result.SiacoinOutput == sce.SiacoinOutput && result.MaturityHeight == sce.MaturityHeight
+//@ extern (types.SiacoinElement).Move pure
+//@   ensures result.ID == sce.ID && result.SiacoinOutput == sce.SiacoinOutput && result.MaturityHeight == sce.MaturityHeight
+//@ extern (*types.Transaction).SiacoinOutputID pure
+//@ extern (*types.V2Transaction).EphemeralSiacoinOutput pure
+//@   requires 0 <= i && i < len(txn.SiacoinOutputs)
+//@   ensures result.SiacoinOutput == txn.SiacoinOutputs[i] && result.MaturityHeight == 0
+//
+//@ iface ChainManager.PoolTransactions
+//@   assigns nothing
+//@ iface ChainManager.V2PoolTransactions
+//@   assigns nothing
+//@ iface ChainManager.TipState
+//@   assigns nothing
+// The store hands out every unspent output once (assumed):
+//@ iface SingleAddressStore.UnspentSiacoinElements
+//@   assigns nothing
+//@   ensures [distinct] forall i int, j int :: { result1[i], result1[j] } 0 <= i && i < j && j < len(result1) ==> result1[i].ID != result1[j].ID
+//
+//@ pred lockedNow(sw *SingleAddressWallet, id types.SiacoinOutputID) = time.Now().Before(sw.locked[id])
+//
+//@ func (*SingleAddressWallet).isLocked props C07
+//@   inline
+//@   nopanic
+//@   assigns nothing
+//@   requires sw != nil
+//@   ensures [def] result == lockedNow(sw, id)
+//
+//@ func (*SingleAddressWallet).SpendableOutputs props C07
+//@   nopanic
+//@   requires sw != nil && sw.cm != nil && sw.store != nil
+//@   loop "range sw.cm.PoolTransactions()"
+//@     invariant sw == old(sw)
+//@     invariant forall id types.SiacoinOutputID :: { inPool[id] } loopentry(inPool[id]) ==> inPool[id]
+//@     invariant forall q int, j int :: { callres("PoolTransactions")[q].SiacoinInputs[j] } 0 <= q && q <= rangeindex && 0 <= j && j < len(callres("PoolTransactions")[q].SiacoinInputs) ==> inPool[callres("PoolTransactions")[q].SiacoinInputs[j].ParentID]
+//@   loop "range txn.SiacoinInputs"
+//@     invariant sw == old(sw)
+//@     invariant forall id types.SiacoinOutputID :: { inPool[id] } loopentry(inPool[id]) ==> inPool[id]
+//@     invariant forall j int :: { txn.SiacoinInputs[j] } 0 <= j && j <= rangeindex ==> inPool[txn.SiacoinInputs[j].ParentID]
+//@   loop "range sw.cm.V2PoolTransactions()"
+//@     invariant sw == old(sw)
+//@     invariant forall id types.SiacoinOutputID :: { inPool[id] } loopentry(inPool[id]) ==> inPool[id]
+//@     invariant forall q int, j int :: { callres("V2PoolTransactions")[q].SiacoinInputs[j] } 0 <= q && q <= rangeindex && 0 <= j && j < len(callres("V2PoolTransactions")[q].SiacoinInputs) ==> inPool[callres("V2PoolTransactions")[q].SiacoinInputs[j].Parent.ID]
+//@   loop "range txn.SiacoinInputs" #2
+//@     invariant sw == old(sw)
+//@     invariant forall id types.SiacoinOutputID :: { inPool[id] } loopentry(inPool[id]) ==> inPool[id]
+//@     invariant forall j int :: { txn.SiacoinInputs[j] } 0 <= j && j <= rangeindex ==> inPool[txn.SiacoinInputs[j].Parent.ID]
+//@   loop "range utxos"
+//@     invariant sw == old(sw)
+//@     invariant 0 <= len(unspent) && len(unspent) <= rangeindex + 1
+//@     invariant forall k int :: { unspent[k] } 0 <= k && k < len(unspent) ==> !inPool[unspent[k].ID] && !lockedNow(sw, unspent[k].ID) && unspent[k].MaturityHeight <= tip.Height
+//@   ensures [v1] result1 == nil ==> forall k int, q int, j int :: { result0[k], callres("PoolTransactions")[q].SiacoinInputs[j] } 0 <= k && k < len(result0) && 0 <= q && q < len(callres("PoolTransactions")) && 0 <= j && j < len(callres("PoolTransactions")[q].SiacoinInputs) ==> result0[k].ID != callres("PoolTransactions")[q].SiacoinInputs[j].ParentID
+//@   ensures [v2] result1 == nil ==> forall k int, q int, j int :: { result0[k], callres("V2PoolTransactions")[q].SiacoinInputs[j] } 0 <= k && k < len(result0) && 0 <= q && q < len(callres("V2PoolTransactions")) && 0 <= j && j < len(callres("V2PoolTransactions")[q].SiacoinInputs) ==> result0[k].ID != callres("V2PoolTransactions")[q].SiacoinInputs[j].Parent.ID
+//@   ensures [unlocked] result1 == nil ==> forall k int :: { result0[k] } 0 <= k && k < len(result0) ==> !lockedNow(sw, result0[k].ID)
+//@   ensures [mature] result1 == nil ==> forall k int :: { result0[k] } 0 <= k && k < len(result0) ==> result0[k].MaturityHeight <= callres("UnspentSiacoinElements", 0).Height
+//
+// selectUTXOs. Abbreviations used below: P1 = the v1 pool, P2 = the v2 pool as returned to this
+// call, E = the store's unspent elements. What is proved of every selected output: not reserved
+// (at the time of the call), mature at the store's tip, not the parent of any pooled input, and
+// the selection holds no output twice.
+//
+// Assumptions about the inputs of the call (unchecked, listed in the evidence):
+//   created-*   poolCreated(id) holds for the id of every output created by a pooled transaction
+//   in-sync     no unspent element of the store is created by a pooled transaction
+//   order-*     the pool is topologically ordered with unique ids: an output created by the
+//               transaction at position q is not spent at a position <= q (nor by the other pool
+//               scanned before it)
+//@ spec func poolCreated(id types.SiacoinOutputID) bool
+//
+//@ func (*SingleAddressWallet).selectUTXOs props C07
+//@   nopanic
+//@   requires sw != nil && sw.cm != nil && sw.store != nil
+//@   requires [config] sw.cfg.MaxDefragUTXOs >= 0
+//@   assumeafter UnspentSiacoinElements [in-sync] : forall m int :: { callres("UnspentSiacoinElements", 1)[m] } 0 <= m && m < len(callres("UnspentSiacoinElements", 1)) ==> !poolCreated(callres("UnspentSiacoinElements", 1)[m].ID)
+//@   assumeafter PoolTransactions [created-v1] : forall q int, o int :: { callres("PoolTransactions")[q].SiacoinOutputID(o) } 0 <= q && q < len(callres("PoolTransactions")) && 0 <= o && o < len(callres("PoolTransactions")[q].SiacoinOutputs) ==> poolCreated(callres("PoolTransactions")[q].SiacoinOutputID(o))
+//@   assumeafter PoolTransactions [order-v1] : forall q int, o int, q2 int, j int :: { callres("PoolTransactions")[q].SiacoinOutputID(o), callres("PoolTransactions")[q2].SiacoinInputs[j] } 0 <= q2 && q2 <= q && q < len(callres("PoolTransactions")) && 0 <= o && o < len(callres("PoolTransactions")[q].SiacoinOutputs) && 0 <= j && j < len(callres("PoolTransactions")[q2].SiacoinInputs) ==> callres("PoolTransactions")[q2].SiacoinInputs[j].ParentID != callres("PoolTransactions")[q].SiacoinOutputID(o)
+//@   assumeafter V2PoolTransactions [created-v2] : forall q int, o int :: { callres("V2PoolTransactions")[q].EphemeralSiacoinOutput(o) } 0 <= q && q < len(callres("V2PoolTransactions")) && 0 <= o && o < len(callres("V2PoolTransactions")[q].SiacoinOutputs) ==> poolCreated(callres("V2PoolTransactions")[q].EphemeralSiacoinOutput(o).ID)
+//@   assumeafter V2PoolTransactions [order-v2] : forall q int, o int, q2 int, j int :: { callres("V2PoolTransactions")[q].EphemeralSiacoinOutput(o), callres("V2PoolTransactions")[q2].SiacoinInputs[j] } 0 <= q2 && q2 <= q && q < len(callres("V2PoolTransactions")) && 0 <= o && o < len(callres("V2PoolTransactions")[q].SiacoinOutputs) && 0 <= j && j < len(callres("V2PoolTransactions")[q2].SiacoinInputs) ==> callres("V2PoolTransactions")[q2].SiacoinInputs[j].Parent.ID != callres("V2PoolTransactions")[q].EphemeralSiacoinOutput(o).ID
+//@   assumeafter V2PoolTransactions [order-v1v2] : forall q int, o int, q2 int, j int :: { callres("V2PoolTransactions")[q].EphemeralSiacoinOutput(o), callres("PoolTransactions")[q2].SiacoinInputs[j] } 0 <= q2 && q2 < len(callres("PoolTransactions")) && 0 <= q && q < len(callres("V2PoolTransactions")) && 0 <= o && o < len(callres("V2PoolTransactions")[q].SiacoinOutputs) && 0 <= j && j < len(callres("PoolTransactions")[q2].SiacoinInputs) ==> callres("PoolTransactions")[q2].SiacoinInputs[j].ParentID != callres("V2PoolTransactions")[q].EphemeralSiacoinOutput(o).ID
+//
+//   -- v1 pool scan
+//@   loop "range sw.cm.PoolTransactions()"
+//@     invariant [spent] forall q int, j int :: { callres("PoolTransactions")[q].SiacoinInputs[j] } 0 <= q && q <= rangeindex && 0 <= j && j < len(callres("PoolTransactions")[q].SiacoinInputs) ==> tpoolSpent[callres("PoolTransactions")[q].SiacoinInputs[j].ParentID]
+//@     invariant [key] forall k types.SiacoinOutputID :: { k in tpoolUtxos } k in tpoolUtxos ==> tpoolUtxos[k].ID == k && tpoolUtxos[k].MaturityHeight == 0 && poolCreated(k)
+//@     invariant [unspent] forall k types.SiacoinOutputID, q int, j int :: { k in tpoolUtxos, callres("PoolTransactions")[q].SiacoinInputs[j] } k in tpoolUtxos && 0 <= q && q <= rangeindex && 0 <= j && j < len(callres("PoolTransactions")[q].SiacoinInputs) ==> callres("PoolTransactions")[q].SiacoinInputs[j].ParentID != k
+//@   loop "range txn.SiacoinInputs"
+//@     invariant [mono] forall id types.SiacoinOutputID :: { tpoolSpent[id] } loopentry(tpoolSpent[id]) ==> tpoolSpent[id]
+//@     invariant [spent] forall j int :: { txn.SiacoinInputs[j] } 0 <= j && j <= rangeindex ==> tpoolSpent[txn.SiacoinInputs[j].ParentID] && !(txn.SiacoinInputs[j].ParentID in tpoolUtxos)
+//@     invariant [shrink] forall k types.SiacoinOutputID :: { k in tpoolUtxos } k in tpoolUtxos ==> loopentry(k in tpoolUtxos) && tpoolUtxos[k] == loopentry(tpoolUtxos[k])
+//@   loop "range txn.SiacoinOutputs"
+//@     invariant [key] forall k types.SiacoinOutputID :: { k in tpoolUtxos } k in tpoolUtxos ==> tpoolUtxos[k].ID == k && tpoolUtxos[k].MaturityHeight == 0 && poolCreated(k)
+//@     invariant [unspent] forall k types.SiacoinOutputID, q int, j int :: { k in tpoolUtxos, callres("PoolTransactions")[q].SiacoinInputs[j] } k in tpoolUtxos && 0 <= q && q <= outerindex && 0 <= j && j < len(callres("PoolTransactions")[q].SiacoinInputs) ==> callres("PoolTransactions")[q].SiacoinInputs[j].ParentID != k
+//
+//   -- v2 pool scan
+//@   loop "range sw.cm.V2PoolTransactions()"
+//@     invariant [spent] forall q int, j int :: { callres("V2PoolTransactions")[q].SiacoinInputs[j] } 0 <= q && q <= rangeindex && 0 <= j && j < len(callres("V2PoolTransactions")[q].SiacoinInputs) ==> tpoolSpent[callres("V2PoolTransactions")[q].SiacoinInputs[j].Parent.ID]
+//@     invariant [spent-v1] forall q int, j int :: { callres("PoolTransactions")[q].SiacoinInputs[j] } 0 <= q && q < len(callres("PoolTransactions")) && 0 <= j && j < len(callres("PoolTransactions")[q].SiacoinInputs) ==> tpoolSpent[callres("PoolTransactions")[q].SiacoinInputs[j].ParentID]
+//@     invariant [key] forall k types.SiacoinOutputID :: { k in tpoolUtxos } k in tpoolUtxos ==> tpoolUtxos[k].ID == k && tpoolUtxos[k].MaturityHeight == 0 && poolCreated(k)
+//@     invariant [unspent-v1] forall k types.SiacoinOutputID, q int, j int :: { k in tpoolUtxos, callres("PoolTransactions")[q].SiacoinInputs[j] } k in tpoolUtxos && 0 <= q && q < len(callres("PoolTransactions")) && 0 <= j && j < len(callres("PoolTransactions")[q].SiacoinInputs) ==> callres("PoolTransactions")[q].SiacoinInputs[j].ParentID != k
+//@     invariant [unspent] forall k types.SiacoinOutputID, q int, j int :: { k in tpoolUtxos, callres("V2PoolTransactions")[q].SiacoinInputs[j] } k in tpoolUtxos && 0 <= q && q <= rangeindex && 0 <= j && j < len(callres("V2PoolTransactions")[q].SiacoinInputs) ==> callres("V2PoolTransactions")[q].SiacoinInputs[j].Parent.ID != k
+//@   loop "range txn.SiacoinInputs" #2
+//@     invariant [mono] forall id types.SiacoinOutputID :: { tpoolSpent[id] } loopentry(tpoolSpent[id]) ==> tpoolSpent[id]
+//@     invariant [spent] forall j int :: { txn.SiacoinInputs[j] } 0 <= j && j <= rangeindex ==> tpoolSpent[txn.SiacoinInputs[j].Parent.ID] && !(txn.SiacoinInputs[j].Parent.ID in tpoolUtxos)
+//@     invariant [shrink] forall k types.SiacoinOutputID :: { k in tpoolUtxos } k in tpoolUtxos ==> loopentry(k in tpoolUtxos) && tpoolUtxos[k] == loopentry(tpoolUtxos[k])
+//@   loop "range txn.SiacoinOutputs" #2
+//@     invariant [key] forall k types.SiacoinOutputID :: { k in tpoolUtxos } k in tpoolUtxos ==> tpoolUtxos[k].ID == k && tpoolUtxos[k].MaturityHeight == 0 && poolCreated(k)
+//@     invariant [unspent-v1] forall k types.SiacoinOutputID, q int, j int :: { k in tpoolUtxos, callres("PoolTransactions")[q].SiacoinInputs[j] } k in tpoolUtxos && 0 <= q && q < len(callres("PoolTransactions")) && 0 <= j && j < len(callres("PoolTransactions")[q].SiacoinInputs) ==> callres("PoolTransactions")[q].SiacoinInputs[j].ParentID != k
+//@     invariant [unspent] forall k types.SiacoinOutputID, q int, j int :: { k in tpoolUtxos, callres("V2PoolTransactions")[q].SiacoinInputs[j] } k in tpoolUtxos && 0 <= q && q <= outerindex && 0 <= j && j < len(callres("V2PoolTransactions")[q].SiacoinInputs) ==> callres("V2PoolTransactions")[q].SiacoinInputs[j].Parent.ID != k
+//
+//   -- confirmed candidates: unreserved, unspent by the pool, mature, pairwise distinct
+//@   loop "range elements"
+//@     invariant [frame] frameRows(utxos)
+//@     invariant [cand] forall k int :: { utxos[k] } 0 <= k && k < len(utxos) ==> !lockedNow(sw, utxos[k].ID) && !tpoolSpent[utxos[k].ID] && utxos[k].MaturityHeight <= tip.Height && !poolCreated(utxos[k].ID)
+//@     invariant [distinct] forall a int, b int :: { utxos[a], utxos[b] } 0 <= a && a < b && b < len(utxos) ==> utxos[a].ID != utxos[b].ID
+//@     invariant [ahead] forall k int, m int :: { utxos[k], elements[m] } 0 <= k && k < len(utxos) && rangeindex < m && m < len(elements) ==> utxos[k].ID != elements[m].ID
+//
+//   -- unconfirmed candidates: owned, unreserved, still in the unconfirmed map, pairwise distinct
+//@   loop "range tpoolUtxos"
+//@     invariant [frame] frameRows(unconfirmedUTXOs)
+//@     invariant [same-confirmed] utxos == loopentry(utxos)
+//@     invariant [cand-confirmed] forall m int :: { utxos[m] } 0 <= m && m < len(utxos) ==> !lockedNow(sw, utxos[m].ID) && !tpoolSpent[utxos[m].ID] && utxos[m].MaturityHeight <= tip.Height && !poolCreated(utxos[m].ID)
+//@     invariant [distinct-confirmed] forall a int, b int :: { utxos[a], utxos[b] } 0 <= a && a < b && b < len(utxos) ==> utxos[a].ID != utxos[b].ID
+//@     invariant [cand] forall u int :: { unconfirmedUTXOs[u] } 0 <= u && u < len(unconfirmedUTXOs) ==> (unconfirmedUTXOs[u].ID in tpoolUtxos) && visited(unconfirmedUTXOs[u].ID) && unconfirmedUTXOs[u].SiacoinOutput.Address == sw.addr && !lockedNow(sw, unconfirmedUTXOs[u].ID) && unconfirmedUTXOs[u].MaturityHeight == 0 && poolCreated(unconfirmedUTXOs[u].ID)
+//@     invariant [distinct] forall a int, b int :: { unconfirmedUTXOs[a], unconfirmedUTXOs[b] } 0 <= a && a < b && b < len(unconfirmedUTXOs) ==> unconfirmedUTXOs[a].ID != unconfirmedUTXOs[b].ID
+//
+//   -- largest first: the selection is a prefix of the candidates
+//@   loop "range utxos"
+//@     invariant [frame] frameRows(selected)
+//@     invariant [cand-confirmed] forall m int :: { utxos[m] } 0 <= m && m < len(utxos) ==> !lockedNow(sw, utxos[m].ID) && !tpoolSpent[utxos[m].ID] && utxos[m].MaturityHeight <= tip.Height && !poolCreated(utxos[m].ID)
+//@     invariant [distinct-confirmed] forall a int, b int :: { utxos[a], utxos[b] } 0 <= a && a < b && b < len(utxos) ==> utxos[a].ID != utxos[b].ID
+//@     invariant [prefix] len(selected) == rangeindex + 1
+//@     invariant [same] forall k int :: { selected[k] } 0 <= k && k < len(selected) ==> selected[k].ID == utxos[k].ID && selected[k].MaturityHeight == utxos[k].MaturityHeight
+//
+//   -- then unconfirmed outputs
+//@   loop "range unconfirmedUTXOs"
+//@     invariant [frame] frameRows(selected)
+//@     invariant [cand-confirmed] forall m int :: { utxos[m] } 0 <= m && m < len(utxos) ==> !lockedNow(sw, utxos[m].ID) && !tpoolSpent[utxos[m].ID] && utxos[m].MaturityHeight <= tip.Height && !poolCreated(utxos[m].ID)
+//@     invariant [distinct-confirmed] forall a int, b int :: { utxos[a], utxos[b] } 0 <= a && a < b && b < len(utxos) ==> utxos[a].ID != utxos[b].ID
+//@     invariant [cand-unconfirmed] forall u int :: { unconfirmedUTXOs[u] } 0 <= u && u < len(unconfirmedUTXOs) ==> (unconfirmedUTXOs[u].ID in tpoolUtxos) && !lockedNow(sw, unconfirmedUTXOs[u].ID) && unconfirmedUTXOs[u].MaturityHeight == 0 && poolCreated(unconfirmedUTXOs[u].ID)
+//@     invariant [distinct-unconfirmed] forall a int, b int :: { unconfirmedUTXOs[a], unconfirmedUTXOs[b] } 0 <= a && a < b && b < len(unconfirmedUTXOs) ==> unconfirmedUTXOs[a].ID != unconfirmedUTXOs[b].ID
+//@     invariant [good] forall k int :: { selected[k] } 0 <= k && k < len(selected) ==> !lockedNow(sw, selected[k].ID) && selected[k].MaturityHeight <= tip.Height && (!tpoolSpent[selected[k].ID] || (selected[k].ID in tpoolUtxos))
+//@     invariant [distinct] forall a int, b int :: { selected[a], selected[b] } 0 <= a && a < b && b < len(selected) ==> selected[a].ID != selected[b].ID
+//@     invariant [rest-unconfirmed] forall k int, u int :: { selected[k], unconfirmedUTXOs[u] } 0 <= k && k < len(selected) && rangeindex < u && u < len(unconfirmedUTXOs) ==> selected[k].ID != unconfirmedUTXOs[u].ID
+//@     invariant [rest-confirmed] forall k int, m int :: { selected[k], utxos[m] } 0 <= k && k < len(selected) && 0 <= m && m < len(utxos) ==> selected[k].ID != utxos[m].ID
+//
+//   -- defrag: the smallest remaining candidates, from the back
+//@   loop "for i >= 0"
+//@     invariant [frame] frameRows(selected)
+//@     invariant [cand-defrag] forall m int :: { defraggable[m] } 0 <= m && m < len(defraggable) ==> !lockedNow(sw, defraggable[m].ID) && !tpoolSpent[defraggable[m].ID] && defraggable[m].MaturityHeight <= tip.Height && !poolCreated(defraggable[m].ID)
+//@     invariant [distinct-defrag] forall a int, b int :: { defraggable[a], defraggable[b] } 0 <= a && a < b && b < len(defraggable) ==> defraggable[a].ID != defraggable[b].ID
+//@     invariant [index] -1 <= i && i < len(defraggable)
+//@     invariant [enough] cval(inputSum) >= cval(amount)
+//@     invariant [good] forall k int :: { selected[k] } 0 <= k && k < len(selected) ==> !lockedNow(sw, selected[k].ID) && selected[k].MaturityHeight <= tip.Height && (!tpoolSpent[selected[k].ID] || (selected[k].ID in tpoolUtxos))
+//@     invariant [distinct] forall a int, b int :: { selected[a], selected[b] } 0 <= a && a < b && b < len(selected) ==> selected[a].ID != selected[b].ID
+//@     invariant [rest] forall k int, m int :: { selected[k], defraggable[m] } 0 <= k && k < len(selected) && 0 <= m && m <= i ==> selected[k].ID != defraggable[m].ID
+//
+//@   ensures [zero] cval(amount) == 0 && result3 == nil ==> len(result1) == 0
+//@   ensures [enough] result3 == nil ==> cval(result2) >= cval(amount)
+//@   ensures [unreserved] result3 == nil ==> forall k int :: { result1[k] } 0 <= k && k < len(result1) ==> !lockedNow(sw, result1[k].ID)
+//@   ensures [mature] result3 == nil ==> forall k int :: { result1[k] } 0 <= k && k < len(result1) ==> result1[k].MaturityHeight <= result0.Height
+//@   ensures [unspent-v1] result3 == nil ==> forall k int, q int, j int :: { result1[k], callres("PoolTransactions")[q].SiacoinInputs[j] } 0 <= k && k < len(result1) && 0 <= q && q < len(callres("PoolTransactions")) && 0 <= j && j < len(callres("PoolTransactions")[q].SiacoinInputs) ==> callres("PoolTransactions")[q].SiacoinInputs[j].ParentID != result1[k].ID
+//@   ensures [unspent-v2] result3 == nil ==> forall k int, q int, j int :: { result1[k], callres("V2PoolTransactions")[q].SiacoinInputs[j] } 0 <= k && k < len(result1) && 0 <= q && q < len(callres("V2PoolTransactions")) && 0 <= j && j < len(callres("V2PoolTransactions")[q].SiacoinInputs) ==> callres("V2PoolTransactions")[q].SiacoinInputs[j].Parent.ID != result1[k].ID
+//@   ensures [distinct] result3 == nil ==> forall a int, b int :: { result1[a], result1[b] } 0 <= a && a < b && b < len(result1) ==> result1[a].ID != result1[b].ID
+//@   ensures [confirmed-only] result3 == nil && !useUnconfirmed ==> forall k int :: { result1[k] } 0 <= k && k < len(result1) ==> !poolCreated(result1[k].ID)
